@@ -42,13 +42,11 @@ structure Ev where
 
 inductive Valid : List Ev → List Nat → Prop
   | nil : Valid [] []
-  | cons {h st} (t : Nat) (op : Op) : Valid h st → Valid (⟨t, op, (apply st op).2⟩ :: h) (apply st op).1
+  | cons {h st e st'} : Valid h st → e.res = (apply st e.op).2 → st' = (apply st e.op).1 → Valid (e :: h) st'
 
 theorem Valid.step {h st} (v : Valid h st) (t : Nat) (op : Op) {st' : List Nat} {r : Res}
-    (e : apply st op = (st', r)) : Valid (⟨t, op, r⟩ :: h) st' := by
-  have := Valid.cons t op v
-  rw [e] at this
-  exact this
+    (e : apply st op = (st', r)) : Valid (⟨t, op, r⟩ :: h) st' :=
+  Valid.cons v (by simp [e]) (by simp [e])
 
 /-- number of times node `n` was pushed -/
 def pushes (n : Nat) : List Ev → Nat
@@ -69,8 +67,11 @@ def outs (n : Nat) : List Ev → Nat
 theorem conservation {h st} (v : Valid h st) (n : Nat) : pushes n h = outs n h + st.count n := by
   induction v with
   | nil => simp [pushes, outs]
-  | cons t op v ih =>
-    rename_i h st
+  | cons v hr hs ih =>
+    rename_i h st e st'
+    obtain ⟨t, op, res⟩ := e
+    simp only at hr hs
+    subst hr; subst hs
     cases op with
     | push m =>
       simp only [pushes, outs, apply, List.count_cons]
@@ -98,5 +99,23 @@ theorem pop_top {h st} (v : Valid h st) (t : Nat) (a : Nat) (r : List Nat) (e : 
     Valid (⟨t, .pop, .popped (some a) r.isEmpty⟩ :: h) r := by
   subst e
   exact v.step t .pop rfl
+
+
+/-- the content is a function of the history -/
+theorem Valid.functional {h st st'} (v : Valid h st) (v' : Valid h st') : st = st' := by
+  induction v generalizing st' with
+  | nil => cases v'; rfl
+  | cons v hr hs ih =>
+    cases v' with
+    | cons w hr' hs' => rw [hs, hs', ih w]
+
+/-- one more linearisation event on top of a valid history: it is the sequential LIFO step -/
+theorem Valid.inv_cons {h st st'} {e : Ev} (v : Valid h st) (v' : Valid (e :: h) st') :
+    e.res = (apply st e.op).2 ∧ st' = (apply st e.op).1 := by
+  cases v' with
+  | cons w hr hs =>
+    have := w.functional v
+    subst this
+    exact ⟨hr, hs⟩
 
 end UrcuVerif.Lifo
